@@ -60,7 +60,11 @@ func RunOne(F *VFuncs, c Config, strat vsched.Strategy, por bool) (*Exec, error)
 		ex.Bad = append(ex.Bad, "no termination within the step limit (livelock): "+ex.Res.Detail)
 	default:
 		if c.Sys == "do" {
-			ex.Bad = append(ex.Bad, CheckDo(c, &ex.Outcome, ex.Log)...)
+			log := ex.Log
+			if c.Overlap != "" {
+				log = nil // the events of two calls are interleaved: results and termination only
+			}
+			ex.Bad = append(ex.Bad, CheckDo(c, &ex.Outcome, log)...)
 		} else {
 			bad, pend := CheckDelivery(c, &ex.Outcome)
 			ex.Bad, ex.Pending = append(ex.Bad, bad...), pend
@@ -160,6 +164,13 @@ func (r *runner) record(ex *Exec, por bool) {
 		if len(r.sum.Pending) < 3 {
 			r.sum.Pending = append(r.sum.Pending, Violation{Replay{ex.Config, picks, por}, ex.Pending, traceStrings(ex.Log)})
 		}
+	}
+	if ex.Config.Overlap != "" { // two calls of Do in flight: outside the single-call LTS, not replayed
+		r.sum.Unmodelled++
+		if len(ex.Bad) > 0 && len(r.sum.Violations) < 20 {
+			r.sum.Violations = append(r.sum.Violations, Violation{Replay{ex.Config, picks, por}, ex.Bad, traceStrings(ex.Log)})
+		}
+		return
 	}
 	r.id++
 	r.sum.Executions++
@@ -327,6 +338,9 @@ func (r *runner) plan(sys string, thorough bool, rng *rand.Rand) error {
 				return err
 			}
 		}
+		if err := each(OverlapConfigs(), 3000, true); err != nil { // two calls of one generated Do in flight
+			return err
+		}
 		nr := 150
 		if thorough {
 			nr = 3000
@@ -395,6 +409,11 @@ func (r *runner) plan(sys string, thorough bool, rng *rand.Rand) error {
 		}
 		if thorough || sys == "joinsel" {
 			if err := each(SmallConfigs(sys, 3, 1, 1), por, true); err != nil {
+				return err
+			}
+		}
+		if sys == "joinsel" { // channel arguments that are nil at run time
+			if err := each(NilArgConfigs(2), por, true); err != nil {
 				return err
 			}
 		}
